@@ -47,7 +47,7 @@ class Report:
             )
 
     def _write_replay(self, v):
-        d = VERIF / "replays" / self.pid
+        d = Path(os.environ.get("VERIF_REPLAY_DIR", VERIF / "replays")) / self.pid
         d.mkdir(parents=True, exist_ok=True)
         body = json.dumps(v, sort_keys=True, default=str)
         name = hashlib.sha1(body.encode()).hexdigest()[:12] + ".json"
@@ -97,8 +97,9 @@ class Report:
             "known_findings_matched": {s: len(m) for s, m in matched.items()},
             "notes": self.notes,
         }
-        out = VERIF / "evidence" / f"{self.pid}.json"
-        out.parent.mkdir(exist_ok=True)
+        # (development runs against scratch worktrees redirect their evidence elsewhere)
+        out = Path(os.environ.get("VERIF_EVIDENCE_DIR", VERIF / "evidence")) / f"{self.pid}.json"
+        out.parent.mkdir(parents=True, exist_ok=True)
         out.write_text(json.dumps(ev, indent=1, default=str) + "\n")
         try:
             _mini_validate(ev)
